@@ -14,6 +14,7 @@ type extFn func(x *Exec, fr *Frame, st *State, fn *ssa.Function, args []*SV, sit
 
 var externalAssumptions = map[string]string{
 	"slices.Clone":            "returns a fresh slice (new backing array) with equal length and element-wise equal contents",
+	"slices.Clip":             "returns s[:len(s):len(s)] (same backing array, capacity reduced to the length)",
 	"log.Panicf":              "does not return (panics)",
 	"log.Panic":               "does not return (panics)",
 	"log.Fatal":               "does not return (exits)",
@@ -76,6 +77,8 @@ func (e *Engine) external(key string, fn *ssa.Function) extFn {
 	switch k {
 	case "slices.Clone":
 		return extSlicesClone
+	case "slices.Clip":
+		return extSlicesClip
 	case "log.Panicf", "log.Panic", "log.Panicln", "log.Fatal", "log.Fatalf", "log.Fatalln":
 		return extNoReturnPanic
 	case "os.Exit":
@@ -196,4 +199,10 @@ func extStringsCount(x *Exec, fr *Frame, st *State, fn *ssa.Function, args []*SV
 	r := w.Fresh("strcount", w.IS)
 	st.assume(w.Le(w.Int(0), r))
 	k(st, fr, TV(r))
+}
+
+func extSlicesClip(x *Exec, fr *Frame, st *State, fn *ssa.Function, args []*SV, site ssa.Instruction, k callK) {
+	w := x.w
+	s := x.svTerm(args[0])
+	k(st, fr, TV(w.slice.Make(w.slice.Get(s, 0), w.slice.Get(s, 1), w.slice.Get(s, 2), w.slice.Get(s, 2))))
 }
